@@ -170,7 +170,7 @@ def explorers(tier, seed):
         gems = {"SparseLinearMI": ["mi"], "SparseLinearMMD": ["mmd_ova"], "SparseMLPMMD": ["mmd_ovo"]}.get(name, ["mmd_ova", "mi", "wasserstein_ova"] if thorough else ["mmd_ova", "mi"])
         for gemini in gems:
             for alpha in (0.0, 0.05, 0.5, 5.0):
-                for Mc in ((0.5, 10.0) if name in M.HAS_HIDDEN else (None,)):
+                for Mc in (((0.5, 10.0, 0.0) if thorough else (0.5, 10.0)) if name in M.HAS_HIDDEN else (None,)):
                     for gi, groups in enumerate(group_menu):
                         for bs in (None, 3):
                             for dynamic in ((False, True) if name != "SparseLinearMI" else (False,)):
